@@ -447,6 +447,42 @@ impl Engine for ConcEngine {
             knobs.insert("prefill".into(), 0);
             knobs.insert("expired_rmw".into(), 1);
         }
+        // "long scan" family (own tape, C14): a store of 300-340 keys, so that a full range query
+        // passes its re-pin interval (256 visited entries); an intruder waits until the scanner
+        // stands on an entry next to that boundary and then deletes, replaces or re-creates exactly
+        // that key (or a neighbour) while the scanner is parked there. Every untouched key has to
+        // be returned exactly once.
+        let mut ls = Tape::fresh(mix(seed, 0x105C));
+        let (sim, store, keys, clients) = if property == "C14" && ls.chance(1, 40) {
+            let n = 300 + ls.below(40) as usize;
+            let keys: Vec<Vec<u8>> = (0..n).map(|i| format!("ls{i:04}").into_bytes()).collect();
+            let at = 254 + ls.below(4) as u64; // seam passes before the intruder moves: the scanner stands on entry at-1
+            let target = (at as i64 - 1 + ls.below(3) as i64 - 1).clamp(0, n as i64 - 1) as usize;
+            let mut scanner = vec![Op::Range { start: Bound::Empty, end: Bound::Max, limit: 1000 }];
+            if ls.chance(1, 2) {
+                scanner.push(Op::Range { start: Bound::Key(10), end: Bound::Max, limit: 400 });
+            }
+            let mut intruder = vec![Op::WaitSite { site: "range.after_slot_load".into(), hits: at, max_polls: 4000 }];
+            match ls.below(4) {
+                0 | 1 => intruder.push(Op::Delete { key: target, ts: Ts::Auto }),
+                2 => {
+                    intruder.push(Op::Delete { key: target, ts: Ts::Auto });
+                    intruder.push(Op::Insert { key: target, val: Val { len: 3100, kind: ValKind::Plain }, ts: Ts::Auto, ttl: 0, bytes: false });
+                }
+                _ => intruder.push(Op::Insert { key: target, val: Val { len: 3101, kind: ValKind::Plain }, ts: Ts::Auto, ttl: 0, bytes: false }),
+            }
+            if ls.chance(1, 2) {
+                intruder.push(Op::Delete { key: (target + 1).min(n - 1), ts: Ts::Auto });
+            }
+            knobs.insert("prefill".into(), n as i64);
+            knobs.insert("prefill_counter".into(), 0);
+            knobs.insert("long_scan".into(), 1);
+            let sim = SimConfig { strategy: if ls.chance(1, 2) { Strategy::Random } else { Strategy::Sticky(300) }, max_steps: 1_500_000, ..sim };
+            let store = StoreCfg { persistent: false, cache: false, ttl: false, sweeper: None, max_memory: None, hash_bits: 6, ..store };
+            (sim, store, keys, vec![scanner, intruder])
+        } else {
+            (sim, store, keys, clients)
+        };
         Scenario {
             engine: "conc".into(),
             property: property.into(),
@@ -700,6 +736,14 @@ fn client_loop(
     for (i, op) in ops.iter().enumerate() {
         if let Op::Advance { ns } = op {
             sim.advance(Duration::from_nanos(*ns));
+            continue;
+        }
+        if let Op::WaitSite { site, hits, max_polls } = op {
+            let mut polls = 0;
+            while sim.site_hits(site) < *hits && polls < *max_polls {
+                feoxdb::verif::yield_point("harness.wait_site");
+                polls += 1;
+            }
             continue;
         }
         counter += 1;
